@@ -172,6 +172,11 @@ def run_falsifier(ctx, check_types):
             inputs = [("Root", [_gen.gen_name_clash(rng)])]
             job["omitDefaults"] = rng.random() < 0.6
             job["convertUnicode"] = True if job["omitDefaults"] else rng.random() < 0.7
+        if i >= len(focus) and i % 12 == 6:
+            # keys that only sanitise to the primary-key names sqlmodel keeps as they are: the original key must stay attached
+            k1, k2 = rng.choice(["PK", "Pk", "pk.", "p-k", "pK"]), rng.choice(["ID", "Id", "id-", "i.d", "iD"])
+            inputs = [("Root", [{k1: 7, "name": "x", "sub": {k2: 3, "v": 1.5}}, {k1: 8, "name": "y", "sub": {k2: 4, "v": 2.5}}])]
+            job["fw"] = rng.choice(["sqlmodel", "sqlmodel", "pydantic"])
         try:
             hit, skip = check_case(inputs, cmps, job, registry, check_types)
         except (ZeroDivisionError, stages.TooCostly):
